@@ -6,6 +6,7 @@
 package websocket
 
 import (
+	"unsafe"
 	"bytes"
 	"fmt"
 	"hash/fnv"
@@ -68,11 +69,64 @@ type verifC14Obs struct {
 	lateMsgs  int     // messages delivered after the first failure
 	out       []byte
 	neverFail bool
+	stalled   bool // a control write of the library gave up waiting for the (free) write lock: the process was stalled > 1 s
+}
+
+// The library gives its own replies (pong, close 1002/1009) a wall-clock deadline of one second for taking the write lock.
+// In these runs nobody else ever holds that lock, so the deadline can only fire if the goroutine is stalled for more than a
+// second between computing the deadline and the select (a machine at several times its capacity does that, rarely).  A reply
+// that was given up for that reason is not a verdict on the reader: the hook below counts, per connection, control writes that
+// started waiting for the lock and never got it; such a run is set aside (counted), not judged.
+var verifC14HookOnce sync.Once
+
+// per-connection counts {lockwait, locked} of control writes, touched only when the library writes a control frame; sharded by
+// the connection's address so that 16 workers do not meet on one lock
+var verifC14Shards [256]struct {
+	mu sync.Mutex
+	m  map[*Conn]*[2]int32
+}
+
+func verifC14Shard(c *Conn) int { return int(uintptr(unsafe.Pointer(c))>>6) & 255 }
+
+func verifC14Hook(point string, c *Conn) {
+	k := -1
+	switch point {
+	case "control.lockwait":
+		k = 0
+	case "control.locked":
+		k = 1
+	default:
+		return
+	}
+	sh := &verifC14Shards[verifC14Shard(c)]
+	sh.mu.Lock()
+	if sh.m == nil {
+		sh.m = map[*Conn]*[2]int32{}
+	}
+	v := sh.m[c]
+	if v == nil {
+		v = new([2]int32)
+		sh.m[c] = v
+	}
+	v[k]++
+	sh.mu.Unlock()
+}
+
+// verifC14Stalled reports whether a control write of c started waiting for the write lock and gave up, and forgets c.
+func verifC14Stalled(c *Conn) bool {
+	sh := &verifC14Shards[verifC14Shard(c)]
+	sh.mu.Lock()
+	v := sh.m[c]
+	delete(sh.m, c)
+	sh.mu.Unlock()
+	return v != nil && v[0] != v[1]
 }
 
 func verifC14Run(cfg verifC14Cfg, wire []byte, maxMsgs int) *verifC14Obs {
+	verifC14HookOnce.Do(func() { VerifHook = verifC14Hook })
 	nc := &verifC14Conn{r: bytes.NewReader(wire), chunk: cfg.chunk}
 	c := newConn(nc, cfg.role == refws.RoleServer, cfg.readBuf, 256)
+
 	if cfg.comp { // what Upgrade / Dial do once permessage-deflate is agreed
 		c.newCompressionWriter = compressNoContextTakeover
 		c.newDecompressionReader = decompressNoContextTakeover
@@ -131,6 +185,7 @@ func verifC14Run(cfg verifC14Cfg, wire []byte, maxMsgs int) *verifC14Obs {
 		}
 	}
 	o.out = nc.w.Bytes()
+	o.stalled = verifC14Stalled(c)
 	return o
 }
 
@@ -252,6 +307,10 @@ func verifC14Eval(acc *verifC14Acc, cfg verifC14Cfg, frames []refws.Frame, wire 
 	var o *verifC14Obs
 	if m.Guard("ws.read", nil, func() { o = verifC14Run(cfg, in, len(frames)) }) {
 		m.Violationf("c14:panic", rep(), "reader panicked")
+		return
+	}
+	if o.stalled {
+		acc.Count("runs_set_aside_after_a_stall_of_more_than_one_second", 1)
 		return
 	}
 	top := verifC14TopClass(frames)
